@@ -203,6 +203,12 @@ func validateRaw(msg messages.Builder, d []byte, strict bool) error {
 		return err
 	}
 
+	// The CheckSum field closes the message: a field that merely carries the CheckSum tag
+	// somewhere before the end (the located one is the first) must not be taken for it.
+	if !bytes.HasSuffix(d, append(cs.ToBytes(), fix.Delimiter...)) {
+		return fmt.Errorf("the CheckSum field is not the last field of the message")
+	}
+
 	blVal := fix.NewInt(0)
 	if err := blVal.FromBytes(bl.Load().ToBytes()); err != nil {
 		return fmt.Errorf("invalid body length: %w", err)
